@@ -6,7 +6,8 @@ files = []
 for part in sorted(glob.glob(os.path.join(HERE, 'coq', 'parts', '*.files'))):
     for line in open(part):
         line = line.strip()
-        if line and not line.startswith('#') and line not in files:
+        if (line and not line.startswith('#') and line not in files
+                and os.path.exists(os.path.join(HERE, 'coq', line))):
             files.append(line)
 with open(os.path.join(HERE, 'coq', '_CoqProject'), 'w') as f:
     f.write('-R theories PM\n' + '\n'.join(files) + '\n')
